@@ -1409,6 +1409,374 @@ def rule_numeric_order(chk, idx):
         raise AnalysisError('only %d numeric layout probes could be decided' % n)
 
 
+# ---------------------------------------------------------------------------------------------------
+# C09.lookup-case: a dictionary keyed by lower-case words is never asked with text captured as written
+
+STR_SAME = {'strip', 'lstrip', 'rstrip', 'replace', 'format', 'join'}
+STR_RAW = {'upper', 'title', 'capitalize', 'swapcase'}
+ENTRY_METHODS = {'parse', 'extract', '__init__'}
+
+
+class CaseVal:
+    """abstract value: kind T(ext) / M(atch) / C(aptured text) / L(ist of captures) / I(terable of matches); lower = known lower case"""
+    __slots__ = ('kind', 'lower')
+
+    def __init__(self, kind, lower):
+        self.kind, self.lower = kind, lower
+
+    def __eq__(self, o):
+        return isinstance(o, CaseVal) and (self.kind, self.lower) == (o.kind, o.lower)
+
+    def __hash__(self):
+        return hash((self.kind, self.lower))
+
+    def __repr__(self):
+        return '%s%s' % (self.kind, '+' if self.lower else '-')
+
+
+def _cjoin(a, b):
+    if a is None or b is None:
+        return None if (a is None and b is None) else CaseVal((a or b).kind, False)
+    kind = 'C' if 'C' in (a.kind, b.kind) else a.kind
+    return CaseVal(kind, a.lower and b.lower)
+
+
+class CaseFlow:
+    def __init__(self, fn, params):
+        self.fn = fn
+        self.env = dict(params)
+        self.lookups = []       # (node, slot, CaseVal of key)
+        self.calls = []         # (method name, is_self, [CaseVal per positional arg], {kw: CaseVal})
+
+    def val(self, e, env):
+        if e is None:
+            return None
+        if isinstance(e, ast.Constant):
+            if isinstance(e.value, str):
+                return CaseVal('T', e.value == e.value.lower())
+            return None
+        if isinstance(e, ast.Name):
+            return env.get(e.id)
+        if isinstance(e, ast.IfExp):
+            return _cjoin(self.val(e.body, env), self.val(e.orelse, env))
+        if isinstance(e, ast.BoolOp):
+            vals = [x for x in (self.val(v, env) for v in e.values) if x is not None]
+            if not vals:
+                return None
+            out = vals[0]
+            for v in vals[1:]:
+                out = _cjoin(out, v)
+            return out
+        if isinstance(e, ast.BinOp) and isinstance(e.op, ast.Add):
+            a, b = self.val(e.left, env), self.val(e.right, env)
+            if a is None and b is None:
+                return None
+            return _cjoin(a or CaseVal('T', False), b or CaseVal('T', False))
+        if isinstance(e, ast.JoinedStr):
+            out = CaseVal('T', True)
+            for v in e.values:
+                x = self.val(v.value if isinstance(v, ast.FormattedValue) else v, env)
+                out = _cjoin(out, x or CaseVal('T', False))
+            return out
+        if isinstance(e, ast.Subscript):
+            base = self.val(e.value, env)
+            if base is None:
+                return None
+            if base.kind == 'L' and not isinstance(e.slice, ast.Slice):
+                return CaseVal('C', base.lower)
+            if base.kind == 'I' and not isinstance(e.slice, ast.Slice):
+                return CaseVal('M', base.lower)
+            return base
+        if isinstance(e, ast.Attribute):
+            base = self.val(e.value, env)
+            if base is not None and base.kind == 'M' and e.attr in ('value', 'string'):
+                return CaseVal('C', base.lower)
+            if e.attr == 'text':
+                return CaseVal('T', False)
+            if config_slot(e):
+                return CaseVal('T', True)      # configuration tokens (prefixes etc.) are resource constants, not input text
+            return None
+        if isinstance(e, ast.Call):
+            return self.call(e, env)
+        return None
+
+    def call(self, e, env):
+        f = e.func
+        name = f.attr if isinstance(f, ast.Attribute) else (f.id if isinstance(f, ast.Name) else None)
+        args = [self.val(a, env) for a in e.args]
+        recv = self.val(f.value, env) if isinstance(f, ast.Attribute) else None
+        recv_name = f.value.id if isinstance(f, ast.Attribute) and isinstance(f.value, ast.Name) else None
+        if isinstance(f, ast.Attribute) and (recv_name == 'self' or not isinstance(f.value, ast.Name) or recv_name not in ('regex', 're', 'RegExpUtility', 'str')):
+            self.calls.append((name, recv_name == 'self', args, {k.arg: self.val(k.value, env) for k in e.keywords if k.arg}))
+        if name == 'lower' and not e.args:
+            base = recv or CaseVal('T', False)
+            return CaseVal(base.kind if base.kind in ('T', 'C') else 'T', True)
+        if name in STR_RAW and not e.args:
+            return CaseVal((recv.kind if recv and recv.kind in ('T', 'C') else 'T'), False)
+        if name in STR_SAME and recv is not None and recv.kind in ('T', 'C'):
+            out = recv
+            for a in args:
+                if a is not None:
+                    out = _cjoin(out, a)
+            return out
+        if name == 'split' and recv is not None and recv.kind in ('T', 'C'):
+            return CaseVal('L' if recv.kind == 'C' else 'T', recv.lower)
+        if name in ('match', 'search', 'fullmatch', 'exact_match', 'match_begin', 'match_end', 'is_exact_match', 'finditer'):
+            text = None
+            if recv_name in ('regex', 're', 'RegExpUtility'):
+                text = args[1] if len(args) > 1 else None
+            elif args:
+                text = args[0]
+            lower = bool(text is not None and text.lower)
+            return CaseVal('I' if name == 'finditer' else 'M', lower)
+        if name == 'get_matches':
+            return CaseVal('L', True)          # RegExpUtility.get_matches lower-cases what it returns
+        if name in ('group', 'get_group', 'groups', 'captures', 'get_group_list', 'groupdict'):
+            m = args[0] if recv_name == 'RegExpUtility' and args else recv
+            lower = bool(m is not None and m.kind == 'M' and m.lower)
+            return CaseVal('L' if name in ('get_group_list', 'captures', 'groups') else 'C', lower)
+        if name in ('next', 'iter', 'list', 'reversed', 'sorted', 'str') and isinstance(f, ast.Name) and args:
+            a0 = args[0]
+            if a0 is not None and a0.kind == 'I' and name == 'next':
+                return CaseVal('M', a0.lower)
+            return a0
+        return None
+
+    # ---- statements
+    def scan(self, e, env):
+        """record lookups keyed by captured text inside expression e"""
+        for n in ast.walk(e):
+            slot, key = None, None
+            if isinstance(n, ast.Compare) and len(n.ops) == 1 and isinstance(n.ops[0], (ast.In, ast.NotIn)):
+                slot, key = config_slot(n.comparators[0]), n.left
+            elif isinstance(n, ast.Subscript):
+                slot, key = config_slot(n.value), n.slice
+            elif isinstance(n, ast.Call) and isinstance(n.func, ast.Attribute) and n.func.attr == 'get' and n.args:
+                slot, key = config_slot(n.func.value), n.args[0]
+            if slot and key is not None and not isinstance(key, ast.Slice):
+                v = self.val(key, env)
+                if v is not None and v.kind == 'C':
+                    self.lookups.append((n, slot, v))
+            if isinstance(n, ast.Call):
+                self.call(n, env)       # records outgoing calls with their argument states
+
+    def walk(self, stmts, env):
+        for st in stmts:
+            if isinstance(st, (ast.Assign, ast.AnnAssign)):
+                if st.value is None:
+                    continue
+                self.scan(st.value, env)
+                v = self.val(st.value, env)
+                for t in (st.targets if isinstance(st, ast.Assign) else [st.target]):
+                    if isinstance(t, ast.Name):
+                        env[t.id] = v
+                    elif isinstance(t, (ast.Tuple, ast.List)):
+                        pair = isinstance(st.value, (ast.Tuple, ast.List)) and len(st.value.elts) == len(t.elts)
+                        for i, x in enumerate(t.elts):
+                            if isinstance(x, ast.Name):
+                                env[x.id] = self.val(st.value.elts[i], env) if pair else None
+            elif isinstance(st, ast.AugAssign):
+                self.scan(st.value, env)
+                if isinstance(st.target, ast.Name):
+                    env[st.target.id] = _cjoin(env.get(st.target.id), self.val(st.value, env))
+            elif isinstance(st, ast.If):
+                self.scan(st.test, env)
+                e1 = self.walk(st.body, dict(env))
+                e2 = self.walk(st.orelse, dict(env))
+                env.clear()
+                env.update({k: (e1.get(k) if e1.get(k) == e2.get(k) else _cjoin(e1.get(k), e2.get(k))) for k in set(e1) | set(e2)})
+            elif isinstance(st, (ast.For, ast.While)):
+                if isinstance(st, ast.For):
+                    self.scan(st.iter, env)
+                    it = self.val(st.iter, env)
+                    for x in ast.walk(st.target):
+                        if isinstance(x, ast.Name):
+                            env[x.id] = CaseVal('M', it.lower) if it is not None and it.kind == 'I' else \
+                                (CaseVal('C', it.lower) if it is not None and it.kind == 'L' else None)
+                else:
+                    self.scan(st.test, env)
+                e1 = self.walk(st.body, dict(env))
+                merged = {k: (env.get(k) if env.get(k) == e1.get(k) else _cjoin(env.get(k), e1.get(k))) for k in set(env) | set(e1)}
+                e1 = self.walk(st.body, dict(merged))
+                self.walk(st.orelse, dict(merged))
+                env.clear()
+                env.update(merged)
+            elif isinstance(st, ast.Try):
+                self.walk(st.body, env)
+                for h in st.handlers:
+                    self.walk(h.body, env)
+                self.walk(st.orelse, env)
+                self.walk(st.finalbody, env)
+            elif isinstance(st, ast.With):
+                self.walk(st.body, env)
+            elif isinstance(st, (ast.Return, ast.Expr)):
+                if st.value is not None:
+                    self.scan(st.value, env)
+        return env
+
+    def run(self):
+        self.walk(self.fn.body, self.env)
+        seen, out = set(), []
+        for n, slot, v in self.lookups:          # loop bodies are walked twice: keep the weakest state per site
+            out.append((n, slot, v))
+        best = {}
+        for n, slot, v in out:
+            k = id(n)
+            if k not in best or (best[k][2].lower and not v.lower):
+                best[k] = (n, slot, v)
+        return sorted(best.values(), key=lambda x: (x[0].lineno, x[0].col_offset))
+
+
+def config_slot(e):
+    """'<slot>' for self.config.<slot>"""
+    if isinstance(e, ast.Attribute) and isinstance(e.value, ast.Attribute) and e.value.attr == 'config' \
+            and isinstance(e.value.value, ast.Name) and e.value.value.id == 'self':
+        return e.attr
+    return None
+
+
+def _lang_of(modname):
+    rest = modname[len(PKG) + 1:] if modname.startswith(PKG + '.') else ''
+    return rest.split('.')[0] if '.' in rest else ''
+
+
+def slot_key_case(idx, R):
+    """{(slot, language): (all keys lower?, number of tables, any cased key?)} for self._<slot> = <Resource>.<Dict> in the
+    configuration classes; language '' = every culture together (used for the culture-independent base classes)"""
+    out = {}
+    for mod in [m for n, m in sorted(idx.mods.items()) if n.startswith(PKG)]:
+        for c in mod.classes.values():
+            for fn in c.methods.values():
+                for n in ast.walk(fn):
+                    if isinstance(n, ast.Assign) and isinstance(n.value, ast.Attribute) and isinstance(n.value.value, ast.Name):
+                        for t in n.targets:
+                            if isinstance(t, ast.Attribute) and isinstance(t.value, ast.Name) and t.value.id == 'self' \
+                                    and t.attr.startswith('_'):
+                                try:
+                                    vals = R.by_name(mod, n.value.value.id)
+                                except AnalysisError:
+                                    vals = None
+                                d = vals.get(n.value.attr) if vals else None
+                                if isinstance(d, dict) and d and all(isinstance(k, str) for k in d):
+                                    lower = all(k == k.lower() for k in d)
+                                    cased = any(k.lower() != k.upper() for k in d)
+                                    for lang in {_lang_of(mod.name), ''}:
+                                        cur = out.get((t.attr[1:], lang), (True, 0, False))
+                                        out[(t.attr[1:], lang)] = (cur[0] and lower, cur[1] + 1, cur[2] or cased)
+    return out
+
+
+CASE_CONTROL = """
+def number_with_month(self, source):
+    suffix = source[3:]
+    match = regex.match(self.config.week_day_regex, suffix.strip())
+    week_day_str = RegExpUtility.get_group(match, 'weekday')
+    if week_day_str in self.config.day_of_week:
+        pass
+    lowered = RegExpUtility.get_group(match, 'weekday').lower()
+    if lowered in self.config.day_of_week:
+        pass
+"""
+
+
+def rule_lookup_case(chk, idx):
+    from ..consteval import Resources
+    rid = 'C09.lookup-case'
+    chk.rule(rid, 'a configuration dictionary whose keys are all lower case is only asked with captured text that was lower-cased '
+                  '(the capture, or the text that was searched) - the patterns are case-insensitive', floor=20, control=True)
+    ctl = CaseFlow(ast.parse(CASE_CONTROL).body[0], {}).run()
+    chk.control(rid, [v.lower for _, _, v in ctl] == [False, True])
+    # the patterns are compiled case-insensitively
+    ru = idx.cls('recognizers_text.utilities.RegExpUtility')
+    g = ru.methods.get('get_safe_reg_exp')
+    if g is None:
+        raise AnalysisError('anchor vanished: RegExpUtility.get_safe_reg_exp')
+    dflt = ' '.join(ast.unparse(d) for d in g.args.defaults)
+    chk.judge('regex.I' in dflt or 'IGNORECASE' in dflt, rid, ru.mod.path, 'RegExpUtility.get_safe_reg_exp',
+              'default flags include IGNORECASE', 'get_safe_reg_exp no longer compiles case-insensitively by default (%s)' % dflt, g.lineno)
+    R = Resources(idx)
+    keycase = slot_key_case(idx, R)
+    mods = [m for n, m in sorted(idx.mods.items()) if n.startswith(PKG) and '.resources' not in n]
+    funcs = [(m, c, f) for m in mods for (mm, c, f) in idx.functions(m) if c is not None]
+    by_name = {}
+    for m, c, f in funcs:
+        by_name.setdefault(f.name, []).append((m, c, f))
+    # parameter states: optimistic start, weakened by every call site (same-name resolution), entry points are raw
+    pstate = {}
+    for m, c, f in funcs:
+        names = [a.arg for a in f.args.args if a.arg not in ('self', 'cls')]
+        pstate[(c, f.name)] = {n_: 'top' for n_ in names}
+    for _ in range(4):
+        incoming = {k: {n_: [] for n_ in v} for k, v in pstate.items()}
+        for m, c, f in funcs:
+            params = {k: (None if v == 'top' else v) for k, v in pstate[(c, f.name)].items()}
+            if f.name in ENTRY_METHODS:
+                params = {k: None for k in params}
+            cf = CaseFlow(f, {k: v for k, v in params.items() if v is not None})
+            cf.run()
+            for name, is_self, args, kwargs in cf.calls:
+                owner = idx.find_method(c, name)[0] if is_self else None
+                for (m2, c2, f2) in by_name.get(name, []):
+                    if is_self and not (c2 is owner or (c in idx.mro(c2) and c2 is not c)):
+                        continue
+                    pn = [a.arg for a in f2.args.args if a.arg not in ('self', 'cls')]
+                    for i, pname in enumerate(pn):
+                        if i < len(args):
+                            incoming[(c2, f2.name)][pname].append(args[i])
+                        elif pname in kwargs:
+                            incoming[(c2, f2.name)][pname].append(kwargs[pname])
+        new = {}
+        for k, v in pstate.items():
+            new[k] = {}
+            for pname in v:
+                inc = incoming[k][pname]
+                if not inc or k[1] in ENTRY_METHODS:
+                    new[k][pname] = None
+                elif any(x is None for x in inc):
+                    kinds = {x.kind for x in inc if x is not None}
+                    new[k][pname] = CaseVal(kinds.pop(), False) if len(kinds) == 1 else None
+                else:
+                    out = inc[0]
+                    for x in inc[1:]:
+                        out = _cjoin(out, x) if out != x else out
+                    new[k][pname] = out
+        if new == pstate:
+            break
+        pstate = new
+    n = 0
+    skipped = {}
+    for m, c, f in funcs:
+        params = {k: v for k, v in pstate[(c, f.name)].items() if isinstance(v, CaseVal)}
+        counts = {}
+        for node, slot, v in CaseFlow(f, params).run():
+            kc = keycase.get((slot, _lang_of(m.name))) or keycase.get((slot, ''))
+            if kc is None:
+                skipped[slot] = skipped.get(slot, 0) + 1
+                continue
+            construct = '%s.%s' % (c.name, f.name)
+            detail = 'self.config.%s asked with %s captured text' % (slot, 'lower-cased' if v.lower else 'raw')
+            counts[detail] = counts.get(detail, 0) + 1
+            if counts[detail] > 1:
+                detail += ' (#%d)' % counts[detail]
+            if not kc[0]:
+                chk.exempt(rid, m.path, construct, 'some table assigned to this slot has keys that are not lower case', detail, node.lineno)
+                continue
+            if not kc[2]:
+                chk.exempt(rid, m.path, construct, 'the keys of the table(s) of this culture have no letter case', detail, node.lineno)
+                continue
+            n += 1
+            chk.consulted(m.path)
+            chk.judge(v.lower, rid, m.path, construct, detail,
+                      '`%s` asks self.config.%s (all keys lower case in %d table(s)) with text captured as written by a '
+                      'case-insensitive pattern: neither the capture nor the searched text passes through .lower(), so capitalised '
+                      'input matches the pattern but misses the table' % (ast.unparse(node)[:70], slot, kc[1]), node.lineno)
+    if skipped:
+        chk.observe('C09.lookup-case: lookups in slots without a resource table of string keys were not judged: %s'
+                    % ', '.join('%s(%d)' % kv for kv in sorted(skipped.items())))
+    if n < 20:
+        raise AnalysisError('only %d dictionary lookups keyed by captured text found' % n)
+
+
 def run(chk):
     chk.explanation = ('granularity kinds (DateOnly vs DateTime) inferred flow-sensitively inside the candidate-selection '
                        'functions; every ordering comparison between the two kinds is a violation; polarity and step of every '
@@ -1421,5 +1789,6 @@ def run(chk):
     rule_eval_yearless(chk, idx)
     rule_eval_weekday(chk, idx)
     rule_numeric_order(chk, idx)
+    rule_lookup_case(chk, idx)
     chk.assume('a parameter annotated `datetime` (the reference) may carry a time of day; DateUtils.safe_create_* with three '
                'date arguments and datetime(y, m, d) yield midnight; DateUtils.this/next/last add whole days')
